@@ -275,6 +275,11 @@ impl Request {
         let mut query_string = "".to_string();
 
         for (key, value) in &hash_query {
+            // A parameter with neither name nor value ("=") brings nothing, it is left out as on the request side
+            if key.is_empty() && value.is_empty() {
+                continue;
+            }
+
             query_string.push_str(&utf8_percent_encode(key, QUERY_ENCODE_SET).to_string());
 
             if !value.is_empty() {
